@@ -4,6 +4,8 @@
  *   c06_sweep sweep <seed> <tier 0|1> <shard> <nshards>      two-dimensional input x capacity sweep
  *   c06_sweep one <kind> <iseed> <n> <entry> <level> <chk> <csf> <wlog> <maxbs> <tcbs> <split> <strat> <mm> <ldm> <cap> <placement>
  *   c06_sweep frames <seed> <tier> <shard> <nshards>          multi-frame inputs for the inspector correspondence
+ *   c06_sweep stream <seed> <tier> <shard> <nshards>          multi-call streaming (de)compression, every buffer fenced
+ *   c06_sweep stream1 <kind> <iseed> <n> <level> <chk> <wlog> <tcbs> <mt> <outChunk>
  *
  * dst and src live in mmap'ed regions fenced by PROT_NONE pages; a buffer of c bytes is placed so that it ENDS at
  * the upper fence (placement 0) or STARTS at the lower fence (placement 1); the slack on the other side is filled
@@ -98,8 +100,10 @@ static void gen_input(unsigned char* p, size_t n, int kind, unsigned long long i
 }
 
 /* ------------------------------------------------------------------ parameter sets / entry points */
-enum { E_COMPRESS = 0, E_COMPRESS2, E_STREAM2, E_SEQ, E_NB };
-static const char* const entryName[] = { "compress", "compress2", "stream2end", "sequences" };
+enum { E_COMPRESS = 0, E_COMPRESS2, E_STREAM2, E_SEQ, E_MT, E_DICT, E_NB };
+static const char* const entryName[] = { "compress", "compress2", "stream2end", "sequences", "mt", "dict" };
+#define MT_JOBSIZE (512u << 10)   /* ZSTDMT_JOBSIZE_MIN */
+static unsigned char g_dict[3000]; static size_t const g_dictSize = 2500; static int g_useDict;
 typedef struct { int level, chk, csf, wlog, maxbs, tcbs, split, strat, mm, ldm; } P;
 
 #define CHK(e) do { size_t const r_ = (e); if (ZSTD_isError(r_)) { fprintf(stderr, "setup error %s: %s\n", #e, ZSTD_getErrorName(r_)); exit(2); } } while (0)
@@ -160,6 +164,13 @@ static size_t run_entry(int entry, const P* p, void* dst, size_t cap, const void
         if (o.pos > cap) return o.pos;               /* reported as an overrun by the caller */
         if (r != 0) return ERROR(dstSize_tooSmall);  /* one pass did not finish: capacity too small */
         return o.pos; }
+    case E_MT:   /* multi-threaded one-pass: two workers, smallest job size */
+        apply_params(g_cctx, p);
+        CHK(ZSTD_CCtx_setParameter(g_cctx, ZSTD_c_nbWorkers, 2));
+        CHK(ZSTD_CCtx_setParameter(g_cctx, ZSTD_c_jobSize, (int)MT_JOBSIZE));
+        return ZSTD_compress2(g_cctx, dst, cap, src, n);
+    case E_DICT: /* raw-content dictionary */
+        return ZSTD_compress_usingDict(g_cctx, dst, cap, src, n, g_dict, g_dictSize, p->level);
     default: {
         apply_params(g_cctx, p);
         CHK(ZSTD_CCtx_setParameter(g_cctx, ZSTD_c_blockDelimiters, ZSTD_sf_explicitBlockDelimiters));
@@ -179,7 +190,7 @@ static int analyze_frame(const unsigned char* f, size_t fsize, size_t* hs, int* 
     g_nbBlocks = 0;
     if (ZSTD_getFrameHeader(&zfh, f, fsize) != 0) return 1;
     *hs = zfh.headerSize; *chk = (int)zfh.checksumFlag;
-    if (ZSTD_isError(ZSTD_decompressBegin(g_dctx))) return 1;
+    if (ZSTD_isError(g_useDict ? ZSTD_decompressBegin_usingDict(g_dctx, g_dict, g_dictSize) : ZSTD_decompressBegin(g_dctx))) return 1;
     pos = 0;
     for (;;) {
         size_t const need = ZSTD_nextSrcSizeToDecompress(g_dctx);
@@ -208,7 +219,12 @@ static int analyze_frame(const unsigned char* f, size_t fsize, size_t* hs, int* 
 }
 
 /* ------------------------------------------------------------------ the sweep of one (input, params, entry) */
-static region g_dstR, g_srcR, g_ddstR, g_dsrcR;
+static region g_dstR, g_srcR, g_ddstR, g_dsrcR, g_ipR;
+static size_t decode_any(void* dst, size_t cap, const void* src, size_t size)
+{
+    return g_useDict ? ZSTD_decompress_usingDict(g_dctx, dst, cap, src, size, g_dict, g_dictSize)
+                     : ZSTD_decompressDCtx(g_dctx, dst, cap, src, size);
+}
 static unsigned char* g_input; static unsigned char* g_ref; static unsigned char* g_out;
 static unsigned g_nbBad;
 
@@ -239,7 +255,7 @@ static size_t fenced_compress(int entry, const P* p, size_t n, size_t c, int pla
             unsigned char* dd; size_t d;
             memcpy(ds, dst, r);
             dd = region_place(&g_ddstR, n, 0);
-            d = ZSTD_decompressDCtx(g_dctx, dd, n, ds, r);
+            d = decode_any(dd, n, ds, r);
             if (ZSTD_isError(d) || d != n || memcmp(dd, g_input, n)) bad("roundtrip-mismatch", c, d);
             if (region_check(&g_ddstR, dd, n, 0)) bad("decoder-write-outside-dst", c, d);
         }
@@ -262,7 +278,7 @@ static void dec_cap(size_t n, size_t csize, size_t c, int placement)
     memcpy(ds, g_out, csize);
     dd = region_place(&g_ddstR, c, placement);
     set_cap_desc("", c, placement, "DECODE", 0);
-    d = ZSTD_decompressDCtx(g_dctx, dd, c, ds, csize);
+    d = decode_any(dd, c, ds, csize);
     if (region_check(&g_ddstR, dd, c, placement)) bad("decoder-write-outside-dst", c, d);
     if (c < n) { if (!ZSTD_isError(d)) bad("decoder-accepted-short-capacity", c, d); }
     else if (ZSTD_isError(d) || d != n || memcmp(dd, g_input, n)) bad("decoder-failed-with-exact-capacity", c, d);
@@ -277,7 +293,7 @@ static void dec_trunc(size_t n, size_t csize, unsigned long long iseed, size_t k
     ds = region_place(&g_dsrcR, tl, 0); memcpy(ds, g_out, tl);
     dd = region_place(&g_ddstR, c, 0);
     set_cap_desc("", c, 0, "TRUNC", k);
-    d = ZSTD_decompressDCtx(g_dctx, dd, c, ds, tl);
+    d = decode_any(dd, c, ds, tl);
     if (region_check(&g_ddstR, dd, c, 0)) bad("decoder-write-outside-dst", c, d);
     if (tl > 0 && tl < csize && !ZSTD_isError(d)) bad("decoder-accepted-truncated-frame", c, d);   /* 0 bytes = zero frames: valid */
     (void)ZSTD_findFrameCompressedSize(ds, tl); (void)ZSTD_decompressBound(ds, tl); (void)ZSTD_getFrameContentSize(ds, tl);
@@ -294,7 +310,7 @@ static void dec_damage(size_t n, size_t csize, unsigned long long iseed, size_t 
     c = (k % 3 == 0) ? n : (k % 3 == 1) ? (n > 7 ? n - 7 : 0) : n + 5;
     dd = region_place(&g_ddstR, c, (int)(k & 1));
     set_cap_desc("", c, (int)(k & 1), "DAMAGE", k);
-    d = ZSTD_decompressDCtx(g_dctx, dd, c, ds, csize);
+    d = decode_any(dd, c, ds, csize);
     if (region_check(&g_ddstR, dd, c, (int)(k & 1))) bad("decoder-write-outside-dst", c, d);
     if (!ZSTD_isError(d) && d > c) bad("decoder-returned-size-exceeds-capacity", c, d);
     (void)ZSTD_findFrameCompressedSize(ds, csize); (void)ZSTD_decompressBound(ds, csize); (void)ZSTD_decompressionMargin(ds, csize);
@@ -312,6 +328,7 @@ static void sweep_case(int kind, unsigned long long iseed, size_t n, int entry, 
     int const placement0 = (int)(caseId & 1);
 
     gen_input(g_input, n, kind, iseed);
+    g_useDict = (entry == E_DICT);
     if (entry == E_SEQ) prepare_seqs(p, g_input, n);
     snprintf(g_desc, sizeof g_desc, "one %d %llu %zu %d %d %d %d %d %d %d %d %d %d %d CAP %zu %d", kind, iseed, n, entry,
              p->level, p->chk, p->csf, p->wlog, p->maxbs, p->tcbs, p->split, p->strat, p->mm, p->ldm, bound + 64, placement0);
@@ -321,8 +338,22 @@ static void sweep_case(int kind, unsigned long long iseed, size_t n, int entry, 
     csize = fenced_compress(entry, p, n, bound + 64, placement0, 1);
     if (ZSTD_isError(csize)) { bad("failed-with-ample-capacity", bound + 64, csize); return; }
     memcpy(g_out, (placement0 ? g_dstR.lo : g_dstR.hi - (bound + 64)), csize);
-    bsmax = g_cctx->blockSize;
+    bsmax = (entry == E_MT) ? ((size_t)1 << 17) : g_cctx->blockSize;
     if (analyze_frame(g_out, csize, &hs, &chk, &total) || total != n) { bad("ample-output-not-decodable-by-bufferless-api", bound + 64, csize); return; }
+    /* in-place decoding with the margin of the ZSTD_DECOMPRESSION_MARGIN macro (single frame, block size of the context) */
+    if (entry != E_SEQ) {
+        size_t const bsz = bsmax ? bsmax : 1;
+        size_t const margin = ZSTD_DECOMPRESSION_MARGIN(n, bsz); size_t const B = n + margin;
+        if (B >= csize) {
+            unsigned char* const buf = region_place(&g_ipR, B, 0); size_t r2;
+            memmove(buf + B - csize, g_out, csize);
+            { char* q = strstr(g_desc, " CAP "); if (q) snprintf(q, sizeof g_desc - (size_t)(q - g_desc), " CAP %zu 0 INPLACE 0", B); }
+            r2 = decode_any(buf, B, buf + B - csize, csize);
+            if (region_check(&g_ipR, buf, B, 0)) bad("inplace-write-outside-buffer", B, r2);
+            if (ZSTD_isError(r2) || r2 != n || memcmp(buf, g_input, n)) bad("inplace-with-macro-margin-failed", B, r2);
+            { char* q = strstr(g_desc, " CAP "); if (q) snprintf(q, sizeof g_desc - (size_t)(q - g_desc), " CAP %zu %d", bound + 64, placement0); }
+        } else bad("macro-margin-buffer-smaller-than-frame", B, csize);
+    }
 
     /* capacities: header area, every wire-block edge, every raw-model block edge, final size, bound */
 #define ADD(v) do { long long v_ = (long long)(v); if (v_ >= 0 && (size_t)v_ <= bound + 3 && nc < 25990) caps[nc++] = (size_t)v_; } while (0)
@@ -331,7 +362,7 @@ static void sweep_case(int kind, unsigned long long iseed, size_t n, int entry, 
     if (entry == E_SEQ) for (i = 27; i <= 48; i++) ADD(i);
     if (csize <= (size_t)(tier ? 12000 : 2500)) for (i = 27; i <= csize + 8; i++) ADD(i);   /* small outputs: every capacity */
     { size_t e = hs; size_t stride = g_nbBlocks > 40 ? g_nbBlocks / 40 : 1;
-      for (i = 0; i < g_nbBlocks; i++) { e += 3 + g_blocks[i].cs; if (i % stride == 0 || i + 3 > g_nbBlocks) { long long d; for (d = -2; d <= 2; d++) ADD((long long)e + d); ADD((long long)e + 6); } } }
+      for (i = 0; i < g_nbBlocks; i++) { e += 3 + g_blocks[i].cs; if (i % stride == 0 || i + 3 > g_nbBlocks) { long long d; for (d = -2; d <= 7; d++) ADD((long long)e + d); } } }
     { size_t e = hs, rem = n; size_t nb = bsmax ? (n + bsmax - 1) / bsmax : 0; size_t stride = nb > 40 ? nb / 40 : 1; size_t k = 0;
       while (rem) { size_t l = rem < bsmax ? rem : bsmax; e += 3 + l; rem -= l; if (k % stride == 0 || rem < 3 * bsmax) { long long d; for (d = -2; d <= 7; d++) ADD((long long)e + d); } k++; } }
     { long long d; for (d = -4; d <= 8; d++) { ADD((long long)csize + d); ADD((long long)bound + d); } }
@@ -437,9 +468,10 @@ static size_t build_cases(kase* ks, size_t maxk, unsigned long long seed, int ti
             default: p.ldm = (int)(rnd() & 1); p.mm = 3 + (int)(rnd() % 4); break;
             }
             if (p.level > 5 && n > 200000) p.level = 3;
-            if (entry == E_COMPRESS) {   /* ZSTD_compressCCtx takes a level only */
+            if (entry == E_COMPRESS || entry == E_DICT) {   /* ZSTD_compressCCtx / ZSTD_compress_usingDict take a level only */
                 int lv[] = { 1, 3, -1, 5, 9, 13 }; int l = lv[rnd() % 6]; if (l > 5 && n > 140000) l = 2;
                 p = mkP(l, 0, -1, 0, 0, 0, 0, 0, 0, 0); }
+            if (entry == E_MT) p = mkP(1 + (int)(rnd() % 3), (int)(rnd() & 1), -1, 0, 0, 0, 0, 0, 0, 0);   /* default window / block size */
             PUSH(kind, is, n, entry, p);
         }
     }
@@ -449,6 +481,25 @@ static size_t build_cases(kase* ks, size_t maxk, unsigned long long seed, int ti
         PUSH(K_ALT8K, seed * 333 + i, 131072 + 65536 + (size_t)(rnd() % 9000), (i & 1) ? E_COMPRESS2 : E_STREAM2, mkP(3, (int)(i & 1), -1, 0, 0, 0, (i % 3 == 0) ? 2 : 0, (int)i, 0, 0));
         PUSH(K_ALTSTAT, seed * 555 + i, 262144 + 131072 + (size_t)(rnd() % 5000), E_COMPRESS2, mkP(3, 0, -1, 0, 0, 0, (int)(i % 3), (int)(i > 6 ? 6 : i), 0, 0));
     }
+    /* (d) multi-threaded one-pass compression: 2 and 3 jobs of 512 KiB, exact multiple, checksum on/off */
+    {   static const size_t mtn[] = { 600000, 1048576, 1100000 };
+        for (i = 0; i < 3; i++) {
+            if (!tier && i == 1 && (seed & 1)) continue;
+            PUSH(K_NOISE, seed * 77 + i, mtn[i], E_MT, mkP(1, (int)((seed + i) & 1), -1, 0, 0, 0, 0, 0, 0, 0));
+        }
+        PUSH(K_TEXT, seed * 79, 700000 + (size_t)(rnd() % 5000), E_MT, mkP(1, 1, -1, 0, 0, 0, 0, 0, 0, 0));
+        if (tier) PUSH(K_ALT8K, seed * 81, 900000, E_MT, mkP(3, 0, -1, 0, 0, 0, 0, 0, 0, 0));
+    }
+    /* (e) dictionary (raw content) */
+    for (i = 0; i < 6; i++) {
+        static const size_t dn[] = { 0, 1, 300, 5000, 131072, 200000 };
+        PUSH((i & 1) ? K_TEXT : K_NOISE, seed * 91 + i, dn[i], E_DICT, mkP((int)(1 + i % 3), 0, -1, 0, 0, 0, 0, 0, 0, 0));
+    }
+    /* (f) RLE blocks in the middle of a frame: constant input cut in 1 KiB blocks (the first block may not be RLE) */
+    PUSH(K_RLE, seed * 93, 5000, E_COMPRESS2, mkP(3, 1, -1, 10, 0, 0, 0, 0, 0, 0));
+    PUSH(K_RLE, seed * 94, 4096, E_STREAM2, mkP(1, 0, -1, 10, 0, 0, 1, 0, 0, 0));
+    PUSH(K_RLE, seed * 95, 6000, E_SEQ, mkP(3, 1, -1, 10, 0, 0, 0, 0, 0, 0));
+    PUSH(K_RLE, seed * 96, 9000, E_COMPRESS2, mkP(3, 0, -1, 11, 0, 1340, 0, 0, 0, 0));
     return k;
 }
 
@@ -472,7 +523,6 @@ static void inspect_line(const char* tag, const unsigned char* src, size_t size,
     printf(" fds=%llx gfcs=%llx", ZSTD_findDecompressedSize(src, size), ZSTD_getFrameContentSize(src, size));
 }
 
-static region g_ipR;
 /* actual decode facts: bytes consumed for the first frame by the streaming decoder, total decoded size by the
    one-shot decoder, and in-place decoding with the advertised margin */
 static void decode_facts(const unsigned char* src, size_t size, size_t expectTotal, const unsigned char* expect)
@@ -608,12 +658,119 @@ static void frames_mode(unsigned long long seed, int tier, unsigned shard, unsig
     free(multi); free(plain); free(one);
 }
 
+
+/* ------------------------------------------------------------------ streaming with many calls: every buffer fenced */
+static region g_sdstR, g_ssrcR;
+#define SCHUNK_MAX 65536u
+/* compress g_input[0..n) with ZSTD_compressStream2, output buffers of outChunk bytes, input pieces of pseudo-random
+   size; returns the frame size (in g_out) or (size_t)-1 */
+static size_t stream_compress(const P* p, int mt, size_t n, size_t outChunk, unsigned long long iseed, size_t* calls)
+{
+    size_t ipos = 0, total = 0, stalls = 0; unsigned long long save;
+    size_t const outMax = ZSTD_compressBound(n) + (n >> 4) + 4096;
+    apply_params(g_cctx, p);
+    if (mt) CHK(ZSTD_CCtx_setParameter(g_cctx, ZSTD_c_nbWorkers, 1));
+    rseed(iseed * 131 + outChunk); save = g_rng;
+    *calls = 0;
+    for (;;) {
+        ZSTD_inBuffer in; ZSTD_outBuffer o; size_t r; unsigned char* src; unsigned char* dst;
+        size_t piece; int const ending = (ipos == n); int const placement = (int)(*calls & 1);
+        g_rng = save; piece = (rnd() % 5 == 0) ? 1 + rnd() % 7 : 1 + rnd() % 40000; save = g_rng;
+        if (piece > n - ipos) piece = n - ipos;
+        if (piece > SCHUNK_MAX) piece = SCHUNK_MAX;
+        src = region_place(&g_ssrcR, piece, 0); memcpy(src, g_input + ipos, piece);      /* ends at the fence: no over-read */
+        dst = region_place(&g_sdstR, outChunk, placement);
+        in.src = src; in.size = piece; in.pos = 0; o.dst = dst; o.size = outChunk; o.pos = 0;
+        r = ZSTD_compressStream2(g_cctx, &o, &in, ending ? ZSTD_e_end : ZSTD_e_continue);
+        (*calls)++;
+        if (region_check(&g_sdstR, dst, outChunk, placement)) bad("stream-write-outside-output-buffer", outChunk, r);
+        if (region_check(&g_ssrcR, src, piece, 0) || memcmp(src, g_input + ipos, piece)) bad("stream-input-modified", outChunk, r);
+        if (o.pos > o.size || in.pos > in.size) { bad("stream-pos-exceeds-size", outChunk, o.pos); return (size_t)-1; }
+        if (ZSTD_isError(r)) { bad("stream-compress-error", outChunk, r); return (size_t)-1; }
+        if (total + o.pos > outMax) { bad("stream-output-far-above-bound", outChunk, total + o.pos); return (size_t)-1; }
+        memcpy(g_out + total, dst, o.pos); total += o.pos;
+        if (in.pos == 0 && o.pos == 0 && !(ending && r == 0)) { if (++stalls > 8) { if (outChunk) bad("stream-no-progress", outChunk, r); return (size_t)-1; } } else stalls = 0;
+        ipos += in.pos;
+        if (ending && r == 0) break;
+        if (*calls > 4000000) { bad("stream-too-many-calls", outChunk, r); return (size_t)-1; }
+    }
+    return total;
+}
+
+/* decode g_out[0..csize) with ZSTD_decompressStream, output buffers of outChunk bytes, input pieces of inChunk bytes */
+static void stream_decompress(size_t n, size_t csize, size_t outChunk, size_t inChunk, size_t* calls)
+{
+    size_t ipos = 0, total = 0, stalls = 0; size_t r = 1;
+    ZSTD_DStream* const ds = ZSTD_createDStream();
+    if (!ds) exit(2);
+    ZSTD_initDStream(ds);
+    *calls = 0;
+    while (r != 0) {
+        ZSTD_inBuffer in; ZSTD_outBuffer o; unsigned char* src; unsigned char* dst; int const placement = (int)(*calls & 1);
+        size_t piece = inChunk; if (piece > csize - ipos) piece = csize - ipos;
+        src = region_place(&g_ssrcR, piece, 0); memcpy(src, g_out + ipos, piece);
+        dst = region_place(&g_sdstR, outChunk, placement);
+        in.src = src; in.size = piece; in.pos = 0; o.dst = dst; o.size = outChunk; o.pos = 0;
+        r = ZSTD_decompressStream(ds, &o, &in);
+        (*calls)++;
+        if (region_check(&g_sdstR, dst, outChunk, placement)) bad("dstream-write-outside-output-buffer", outChunk, r);
+        if (o.pos > o.size || in.pos > in.size) { bad("dstream-pos-exceeds-size", outChunk, o.pos); break; }
+        if (ZSTD_isError(r)) { bad("dstream-error-on-valid-frame", outChunk, r); break; }
+        if (total + o.pos > n || memcmp(dst, g_input + total, o.pos)) { bad("dstream-wrong-content", outChunk, total + o.pos); break; }
+        total += o.pos; ipos += in.pos;
+        if (in.pos == 0 && o.pos == 0) { if (++stalls > 8) { if (outChunk || total == n) bad("dstream-no-progress", outChunk, r); break; } } else stalls = 0;
+        if (ipos == csize && r != 0 && o.pos < o.size && in.pos == 0 && stalls > 2) break;
+    }
+    if (r == 0 && total != n) bad("dstream-short-output", outChunk, total);
+    ZSTD_freeDStream(ds);
+}
+
+static void stream_case(int kind, unsigned long long iseed, size_t n, const P* p, int mt, size_t outChunk)
+{
+    size_t csize, ccalls = 0, dcalls = 0, dcalls2 = 0;
+    gen_input(g_input, n, kind, iseed);
+    g_useDict = 0;
+    snprintf(g_desc, sizeof g_desc, "stream1 %d %llu %zu %d %d %d %d %d %zu", kind, iseed, n, p->level, p->chk, p->wlog, p->tcbs, mt, outChunk);
+    csize = stream_compress(p, mt, n, outChunk, iseed, &ccalls);
+    if (csize == (size_t)-1) { printf("STREAM kind=%s n=%zu mt=%d c=%zu csize=-1 ccalls=%zu dcalls=0\n", kindName[kind], n, mt, outChunk, ccalls); return; }
+    {   /* the assembled frame is valid */
+        size_t const d = ZSTD_decompressDCtx(g_dctx, g_scratch, g_scratchCap, g_out, csize);
+        if (ZSTD_isError(d) || d != n || memcmp(g_scratch, g_input, n)) bad("stream-roundtrip-mismatch", outChunk, d);
+    }
+    stream_decompress(n, csize, outChunk ? outChunk : 1, SCHUNK_MAX, &dcalls);
+    stream_decompress(n, csize, outChunk ? outChunk : 1, 1 + (size_t)(iseed % 13), &dcalls2);
+    printf("STREAM kind=%s n=%zu mt=%d c=%zu csize=%zu ccalls=%zu dcalls=%zu\n", kindName[kind], n, mt, outChunk, csize, ccalls, dcalls + dcalls2);
+}
+
+static void stream_mode(unsigned long long seed, int tier, unsigned shard, unsigned nshards)
+{
+    static const size_t chunks[] = { 1, 2, 3, 4, 5, 8, 17, 18, 19, 100, 1000, 4096, 65536 };
+    static const size_t ns[] = { 0, 1, 100, 5000, 70000, 200000 };
+    unsigned ci = 0, a, b, c;
+    for (a = 0; a < sizeof ns / sizeof ns[0]; a++) for (b = 0; b < 5; b++) for (c = 0; c < sizeof chunks / sizeof chunks[0]; c++) {
+        size_t const n = ns[a], ch = chunks[c]; int const mt = (b == 4);
+        int const kind = (int)((a + b + c + seed) % 4 == 0 ? K_NOISE : (a + b + c + seed) % 4 == 1 ? K_TEXT : (a + b + c + seed) % 4 == 2 ? K_ALT8K : K_RLE);
+        P p = mkP(1 + (int)((a + c) % 3), (int)(b == 1), -1, b == 2 ? 10 : 0, 0, b == 3 ? 1340 + (int)((seed * 37 + c) % 3000) : 0, 0, 0, 0, 0);
+        pid_t pid; int st = 0;
+        if (n / (ch ? ch : 1) > (size_t)(tier ? 60000 : 5000)) continue;        /* bound the number of calls */
+        if (!tier && (a * 7 + b * 3 + c + seed) % 3 == 0 && ch > 8 && ch < 65536) continue;
+        if (ci++ % nshards != shard) continue;
+        fflush(stdout);
+        pid = fork();
+        if (pid < 0) exit(2);
+        if (pid == 0) { stream_case(kind, seed * 1009 + ci, n, &p, mt, ch); fflush(stdout); _exit(0); }
+        if (waitpid(pid, &st, 0) < 0) exit(2);
+        if (!(WIFEXITED(st) && (WEXITSTATUS(st) == 0 || WEXITSTATUS(st) == 3))) printf("ABANDON stream case=%u status=%d\n", ci, st);
+    }
+}
+
 /* ------------------------------------------------------------------ main */
 int main(int argc, char** argv)
 {
-    size_t const maxN = 700000;
+    size_t const maxN = 1200000;
     if (argc < 2) return 2;
     setvbuf(stdout, NULL, _IOLBF, 0);
+    gen_input(g_dict, sizeof g_dict, K_TEXT, 4711);
     g_mainAddr = (void*)&main;
     { void* warm[2]; (void)backtrace(warm, 2); }   /* loads libgcc now, not inside the handler */
     install_handlers();
@@ -656,6 +813,7 @@ int main(int argc, char** argv)
         size_t const cap = !strcmp(argv[17], "BOUND") ? ZSTD_compressBound((size_t)strtoull(argv[4], NULL, 10)) : (size_t)strtoull(argv[17], NULL, 10); int const placement = argc > 18 ? atoi(argv[18]) : 0; size_t r;
         if (n > maxN) return 2;
         gen_input(g_input, n, kind, iseed);
+        g_useDict = (entry == E_DICT);
         if (entry == E_SEQ) prepare_seqs(&p, g_input, n);
         snprintf(g_desc, sizeof g_desc, "replay kind=%d n=%zu entry=%d cap=%zu placement=%d", kind, n, entry, cap, placement);
         { static size_t dummy[1]; g_shared = dummy; }
@@ -672,9 +830,35 @@ int main(int argc, char** argv)
             printf("RESULT decoder step %s %zu done bad=%u\n", argv[19], k, g_nbBad);
             return g_nbBad ? 1 : 0;
         }
+        if (argc > 19 && !strcmp(argv[19], "INPLACE")) {
+            /* in-place decoding with the ZSTD_DECOMPRESSION_MARGIN macro: ample compression, then decode inside one buffer */
+            size_t const csize = fenced_compress(entry, &p, n, ZSTD_compressBound(n) + 64, 0, 1);
+            size_t const bsz = (entry == E_MT) ? ((size_t)1 << 17) : (g_cctx->blockSize ? g_cctx->blockSize : 1);
+            size_t const B = n + ZSTD_DECOMPRESSION_MARGIN(n, bsz); unsigned char* buf; size_t r2;
+            if (ZSTD_isError(csize)) { printf("RESULT ample compression failed\n"); return 1; }
+            memcpy(g_out, g_dstR.hi - (ZSTD_compressBound(n) + 64), csize);
+            buf = region_place(&g_ipR, B, 0); memmove(buf + B - csize, g_out, csize);
+            r2 = decode_any(buf, B, buf + B - csize, csize);
+            if (region_check(&g_ipR, buf, B, 0)) bad("inplace-write-outside-buffer", B, r2);
+            if (ZSTD_isError(r2) || r2 != n || memcmp(buf, g_input, n)) bad("inplace-with-macro-margin-failed", B, r2);
+            printf("RESULT in-place B=%zu csize=%zu ret=%zu (%s) bad=%u\n", B, csize, r2, ZSTD_isError(r2) ? ZSTD_getErrorName(r2) : "ok", g_nbBad);
+            return g_nbBad ? 1 : 0;
+        }
         r = fenced_compress(entry, &p, n, cap, placement, 1);
         if (ZSTD_isError(r) && cap >= ZSTD_compressBound(n)) bad("bound-capacity-rejected", cap, r);
         printf("RESULT cap=%zu bound=%zu ret=%zu (%s) bad=%u\n", cap, ZSTD_compressBound(n), r, ZSTD_isError(r) ? ZSTD_getErrorName(r) : "ok", g_nbBad);
+        return g_nbBad ? 1 : 0;
+    } else if (!strcmp(argv[1], "stream") && argc >= 6) {
+        g_sdstR = region_new(SCHUNK_MAX + 64); g_ssrcR = region_new(SCHUNK_MAX + 64);
+        { static size_t dummy[1]; g_shared = dummy; }
+        stream_mode(strtoull(argv[2], NULL, 10), atoi(argv[3]), (unsigned)atoi(argv[4]), (unsigned)atoi(argv[5]));
+        printf("DONE stream\n");
+    } else if (!strcmp(argv[1], "stream1") && argc >= 11) {
+        P p = mkP(atoi(argv[5]), atoi(argv[6]), -1, atoi(argv[7]), 0, atoi(argv[8]), 0, 0, 0, 0);
+        g_sdstR = region_new(SCHUNK_MAX + 64); g_ssrcR = region_new(SCHUNK_MAX + 64);
+        { static size_t dummy[1]; g_shared = dummy; }
+        stream_case(atoi(argv[2]), strtoull(argv[3], NULL, 10), (size_t)strtoull(argv[4], NULL, 10), &p, atoi(argv[9]), (size_t)strtoull(argv[10], NULL, 10));
+        printf("RESULT stream case done bad=%u\n", g_nbBad);
         return g_nbBad ? 1 : 0;
     } else if (!strcmp(argv[1], "frames") && argc >= 6) {
         frames_mode(strtoull(argv[2], NULL, 10), atoi(argv[3]), (unsigned)atoi(argv[4]), (unsigned)atoi(argv[5]));
